@@ -296,7 +296,7 @@ func (r *runner) minimise(c RunConfig, picks []int, clause string) (RunConfig, b
 		return ok
 	}
 	cur := c
-	cur.Policy = simctl.Policy{Kind: "recorded"}
+	cur.Policy = simctl.Policy{Kind: "recorded", Pool: cur.Policy.Pool}
 	cur.Picks = append([]int(nil), picks...)
 	if !fails(&cur) {
 		// the recorded schedule must reproduce the failure; if not, keep the original
@@ -417,7 +417,7 @@ func (r *runner) report(c *RunConfig, idx int, viol Violation, o *Outcome) {
 	if !still {
 		// fall back to the original configuration with its recorded picks
 		final = *c
-		final.Policy = simctl.Policy{Kind: "recorded"}
+		final.Policy = simctl.Policy{Kind: "recorded", Pool: final.Policy.Pool}
 		final.Picks = append([]int(nil), o.Sim.Picks...)
 		vs, fo = r.evaluate(&final)
 		fv, still = hasClause(vs, viol.Clause)
